@@ -1165,9 +1165,7 @@ _HE = "skfem/mesh/mesh_hex_1.py"
 MUTANTS = [
     ("oriented boundaries indexed without their flags",
      ("skfem/generic_utils.py",
-      "            out.ori = self.ori[key]
-", "            pass
-"),
+      "            out.ori = self.ori[key]\n", "            pass\n"),
      "C18-R1"),
     ("to_meshtri builds boundary tags without a dtype",
      (_QU, "self.boundaries[k])]],\n                    dtype=np.int32)",
